@@ -53,7 +53,10 @@ struct RunCfg {
   std::vector<std::string> names;     // base-name pool
   std::vector<int> qtypes;            // qtype pool
   std::map<std::string, int64_t> ov;  // overrides applied from a replay file
-  std::string dump() const;           // JSON
+  std::map<std::string, int64_t> knobs;  // profile-specific integer knobs (serialised)
+  int64_t knob(const char *k, int64_t d = 0) const { auto it = knobs.find(k); return it == knobs.end() ? d : it->second; }
+  std::string dump() const;           // JSON (complete)
+  bool load(const JV &v);             // from JSON
 };
 
 enum StepKind {
